@@ -101,6 +101,19 @@ def run_impl(exes, b, ops=None):
             rc1, out1, err1 = common.sh(cmd, inp=rest[len(lines)] + "\n", timeout=SINGLE_TIMEOUT, env=env)
             if rc1 == 0 and out1.endswith("\n"):
                 raise RuntimeError("batch of %d ops timed out at `%s`, which returns when run alone: machine overloaded?" % (len(rest), rest[len(lines)]))
+        if rc not in (0, -9) and "Cannot allocate memory" in err:
+            # the operating system refused memory (other jobs on the machine): the op alone, in a fresh process, decides
+            import time as _t
+            answered = None
+            for _ in range(2):
+                _t.sleep(2)
+                rc1, out1, err1 = common.sh(cmd, inp=rest[len(lines)] + "\n", timeout=SINGLE_TIMEOUT, env=env)
+                if rc1 == 0 and out1.endswith("\n") and out1.splitlines():
+                    answered = out1.splitlines()[0]
+                    break
+            if answered is not None:
+                outs.append(answered)
+                continue
         why = "timeout" if rc == -9 else "rc=%s %s" % (rc, " ".join(err.split()[:12]))
         outs.append(NORETURN + " " + why)
         restarts += 1
